@@ -170,6 +170,8 @@ type Knobs struct {
 	LogVariety bool
 	LongACL    bool
 	Independent bool // draw A independently of B
+	Shaped      bool // Netspoc-shaped ACLs: deny block, permits, final deny; edits keep the shape
+	NoShare     bool // never bind one ACL twice on the device
 }
 
 func DefaultKnobs(kind string, t *tape.Tape) Knobs {
@@ -221,6 +223,26 @@ func genACE(t *tape.Tape, k Knobs, groups []GGroup) GACE {
 
 func genACL(t *tape.Tape, k Knobs, name string, groups []GGroup) GACL {
 	a := GACL{Name: name}
+	if k.Shaped {
+		seen := map[string]bool{}
+		for i, n := 0, t.Next(3); i < n; i++ {
+			e := GACE{Proto: "ip", Src: GAddr{Kind: "any"}, Dst: GAddr{Kind: "host", Val: tape.Pick(t, hosts)}}
+			if !seen[e.key()] {
+				seen[e.key()] = true
+				a.Lines = append(a.Lines, e)
+			}
+		}
+		for i, n := 0, 1+t.Next(k.MaxLines); i < n; i++ {
+			e := genACE(t, k, groups)
+			e.Permit = true
+			if !seen[e.key()] {
+				seen[e.key()] = true
+				a.Lines = append(a.Lines, e)
+			}
+		}
+		a.Lines = append(a.Lines, GACE{Proto: "ip", Src: GAddr{Kind: "any"}, Dst: GAddr{Kind: "any"}})
+		return a
+	}
 	n := 1 + t.Next(k.MaxLines)
 	seen := map[string]bool{}
 	for i := 0; i < n; i++ {
@@ -431,6 +453,55 @@ func DeriveDevice(t *tape.Tape, k Knobs, b *GConf) (*GConf, []string) {
 	for i := 0; i < nEdits; i++ {
 		op := t.Next(16)
 		switch {
+		case op <= 6 && len(a.ACLs) > 0 && k.Shaped: // shape-preserving line edits
+			acl := &a.ACLs[t.Next(len(a.ACLs))]
+			lo, hi := permitBlock(acl.Lines)
+			switch op {
+			case 0:
+				if hi-lo > 1 {
+					j := lo + t.Next(hi-lo)
+					acl.Lines = append(acl.Lines[:j:j], acl.Lines[j+1:]...)
+					ops = append(ops, fmt.Sprintf("del permit %d of %s", j, acl.Name))
+				}
+			case 1, 2:
+				e := genACE(t, k, a.Groups)
+				e.Permit = true
+				if !hasDup(acl.Lines, e, -1) {
+					j := lo + t.Next(hi-lo+1)
+					acl.Lines = append(acl.Lines[:j:j], append([]GACE{e}, acl.Lines[j:]...)...)
+					ops = append(ops, fmt.Sprintf("ins permit %d of %s", j, acl.Name))
+				}
+			case 3, 4:
+				if hi-lo > 1 {
+					j := lo + t.Next(hi-lo)
+					e := acl.Lines[j]
+					rest := append(acl.Lines[:j:j], acl.Lines[j+1:]...)
+					p := lo + t.Next(hi-lo)
+					acl.Lines = append(rest[:p:p], append([]GACE{e}, rest[p:]...)...)
+					ops = append(ops, fmt.Sprintf("move permit %d->%d of %s", j, p, acl.Name))
+				}
+			case 5:
+				j := t.Next(len(acl.Lines))
+				if k.Kind == "ASA" {
+					acl.Lines[j].Log = []string{"", "log", "log 4"}[t.Next(3)]
+				} else {
+					acl.Lines[j].Log = []string{"", "log", "log-input"}[t.Next(3)]
+				}
+				ops = append(ops, fmt.Sprintf("log of line %d of %s", j, acl.Name))
+			case 6: // deny block: add or remove a host deny in front
+				if lo > 0 && t.Next(2) == 0 {
+					j := t.Next(lo)
+					acl.Lines = append(acl.Lines[:j:j], acl.Lines[j+1:]...)
+					ops = append(ops, "del deny of "+acl.Name)
+				} else {
+					e := GACE{Proto: "ip", Src: GAddr{Kind: "any"}, Dst: GAddr{Kind: "host", Val: tape.Pick(t, hosts)}}
+					if !hasDup(acl.Lines, e, -1) {
+						j := t.Next(lo + 1)
+						acl.Lines = append(acl.Lines[:j:j], append([]GACE{e}, acl.Lines[j:]...)...)
+						ops = append(ops, "ins deny of "+acl.Name)
+					}
+				}
+			}
 		case op <= 6 && len(a.ACLs) > 0: // line edits
 			acl := &a.ACLs[t.Next(len(a.ACLs))]
 			switch op {
@@ -587,11 +658,11 @@ func DeriveDevice(t *tape.Tape, k Knobs, b *GConf) (*GConf, []string) {
 				}
 			}
 			ops = append(ops, "unbind "+name)
-		case op == 14 && len(a.ACLs) > 0: // completely different ACL content
+		case op == 14 && len(a.ACLs) > 0 && !k.Shaped: // completely different ACL content
 			acl := &a.ACLs[t.Next(len(a.ACLs))]
 			*acl = genACL(t, k, acl.Name, a.Groups)
 			ops = append(ops, "replace content of "+acl.Name)
-		case op == 15 && len(a.ACLs) > 1: // two interfaces share one ACL on the device
+		case op == 15 && len(a.ACLs) > 1 && !k.NoShare: // two interfaces share one ACL on the device
 			if len(a.Binds) > 1 {
 				a.Binds[1].ACL = a.Binds[0].ACL
 				ops = append(ops, "share ACL "+a.Binds[0].ACL)
@@ -762,4 +833,17 @@ func AddClutter(t *tape.Tape, a *GConf) []string {
 		}
 	}
 	return what
+}
+
+// permitBlock returns the index range [lo,hi) of the permit lines of a shaped ACL.
+func permitBlock(l []GACE) (int, int) {
+	lo := 0
+	for lo < len(l) && !l[lo].Permit {
+		lo++
+	}
+	hi := lo
+	for hi < len(l) && l[hi].Permit {
+		hi++
+	}
+	return lo, hi
 }
